@@ -12,7 +12,8 @@ KF_MODE = os.environ.get("VP_KF_MODE", "outside")  # outside | inside:<finding i
 MAX_SAMPLES = 4
 
 # per-process collectors (read by vp.worker after the run)
-STATS = {"reached": 0, "nontrivial": 0, "skipped_known": 0}
+STATS = {"reached": 0, "nontrivial": 0, "skipped_known": 0, "stub_gaps": 0}
+STUB_GAP_NOTES = []
 SAMPLES = []
 
 _KF = None
@@ -146,3 +147,15 @@ def in_shard_index(idx):
         return True
     k, total = (int(x) for x in spec.split("/"))
     return idx % total == k
+
+
+class StubGap(Exception):
+    """Raised by an environment stub when the code under test uses the stubbed facility in a way
+    the stub does not model.  The path is then neither a pass nor a violation: the cell is
+    reported inconclusive (the harness cannot decide the property for this implementation)."""
+
+
+def stub_gap(note):
+    STATS["stub_gaps"] += 1
+    if len(STUB_GAP_NOTES) < 5:
+        STUB_GAP_NOTES.append(str(note)[:200])
